@@ -365,11 +365,13 @@ qb_rb_space_free(struct qb_ringbuffer_s * rb)
 	} else if (write_size < read_size) {
 		space_free = (read_size - write_size) - 1;
 	} else {
-		if (rb->notifier.q_len_fn && rb->notifier.q_len_fn(rb->notifier.instance) > 0) {
-			space_free = 0;
-		} else {
-			space_free = rb->shared_hdr->word_size;
-		}
+		/*
+		 * The writer always leaves a gap in front of read_pt, so
+		 * equal pointers can only mean "empty". (The notifier's
+		 * count says nothing here: in overwrite mode it is not
+		 * decremented for chunks the writer reclaims itself.)
+		 */
+		space_free = rb->shared_hdr->word_size;
 	}
 
 	/* word -> bytes */
